@@ -461,7 +461,14 @@ func (g *G) XRBlock() V {
 		}
 		return V{"bt": bt, "t": g.R.Intn(16), "ssrc": g.U32(), "bs": bs, "es": es, "chunks": cs}
 	case 2:
-		return V{"bt": "prt", "t": g.R.Intn(16), "ssrc": g.U32(), "bs": g.U16(), "es": g.U16(), "times": g.U32s(g.Pick(0, 1, 2, 3))}
+		nt := g.Pick(0, 1, 2, 3, 4)
+		pbs, pes, pt := g.U16(), g.U16(), g.R.Intn(16)
+		if g.Bool() {
+			// as many receipt times as the interval has sequence numbers, one more (an inclusive end), one fewer
+			pes = (pbs + nt + g.Pick(-1, 0, 0, 1) + 65536) % 65536
+			pt = g.Pick(0, 0, pt)
+		}
+		return V{"bt": "prt", "t": pt, "ssrc": g.U32(), "bs": pbs, "es": pes, "times": g.U32s(nt)}
 	case 3:
 		return V{"bt": "rrt", "ntp": g.U64()}
 	case 4:
